@@ -22,7 +22,11 @@ TIME_LIMIT = 2.0
 
 
 def gen_c17_program(rng, h):
-    prog = E.gen_program(rng, h)
+    r0 = rng.random()
+    # a third of the programs come from the families built around re-entrant constraint
+    # re-checks (a variable resolved while its constraints are minimised or fulfilled)
+    prog = E.gen_reentrant_elim(rng, h) if r0 < 0.25 else E.gen_merge_program(rng, h) if r0 < 0.33 \
+        else E.gen_program(rng, h)
     nvals = sum(1 for c in prog if c[0] in ("inst", "apply", "fix"))
     extra = rng.choice([0, 0, 1, 2, 3])
     for _ in range(extra):
